@@ -11,6 +11,7 @@ import (
 	"sort"
 	"strings"
 	"sync"
+	"sync/atomic"
 
 	at "github.com/DanielSvub/anytype"
 )
@@ -91,6 +92,42 @@ func typedSlice(xs []any) any {
 	if len(xs) == 0 {
 		return xs
 	}
+	// []List / []Object, nil entries allowed (a nil entry reaches parseVal as a nil interface and is stored as nil)
+	var firstC any
+	for _, x := range xs {
+		if x != nil {
+			firstC = x
+			break
+		}
+	}
+	switch firstC.(type) {
+	case at.List:
+		r := make([]at.List, len(xs))
+		for i, x := range xs {
+			if x == nil {
+				continue
+			}
+			v, ok := x.(at.List)
+			if !ok {
+				return xs
+			}
+			r[i] = v
+		}
+		return r
+	case at.Object:
+		r := make([]at.Object, len(xs))
+		for i, x := range xs {
+			if x == nil {
+				continue
+			}
+			v, ok := x.(at.Object)
+			if !ok {
+				return xs
+			}
+			r[i] = v
+		}
+		return r
+	}
 	switch xs[0].(type) {
 	case int:
 		r := make([]int, len(xs))
@@ -158,6 +195,42 @@ func typedSlice(xs []any) any {
 func typedMap(xs map[string]any) any {
 	if len(xs) == 0 {
 		return xs
+	}
+	var firstC any
+	for _, v := range xs {
+		if v != nil {
+			firstC = v
+		}
+	}
+	switch firstC.(type) {
+	case at.List:
+		r := map[string]at.List{}
+		for k, x := range xs {
+			if x == nil {
+				r[k] = nil
+				continue
+			}
+			v, ok := x.(at.List)
+			if !ok {
+				return xs
+			}
+			r[k] = v
+		}
+		return r
+	case at.Object:
+		r := map[string]at.Object{}
+		for k, x := range xs {
+			if x == nil {
+				r[k] = nil
+				continue
+			}
+			v, ok := x.(at.Object)
+			if !ok {
+				return xs
+			}
+			r[k] = v
+		}
+		return r
 	}
 	var first any
 	for _, v := range xs {
@@ -251,7 +324,27 @@ func hTruthy(x any) bool {
 	return false
 }
 
+// touch: a callback may itself iterate (nested iteration is ordinary use: a matrix, a list of records); reading the element's own
+// content from inside the callback, and the receiver's through a second iteration, must not disturb the iteration in progress
+var touchDepth int32
+
+func touch(x any) {
+	if atomic.AddInt32(&touchDepth, 1) <= 2 {
+		switch c := x.(type) {
+		case at.List:
+			c.ForEach(func(int, any) {})
+			c.ForEachValue(func(any) {})
+			_ = c.Count()
+		case at.Object:
+			c.ForEach(func(string, any) {})
+			_ = c.Count()
+		}
+	}
+	atomic.AddInt32(&touchDepth, -1)
+}
+
 func applyPred(p string, k at.Type, x any) bool {
+	touch(x)
 	switch p {
 	case "PTruthy":
 		return hTruthy(x)
@@ -269,6 +362,7 @@ func predCoq(p string, k at.Type) string {
 	return p
 }
 func applyMapf(f string, tag any, x any) any {
+	touch(x)
 	switch f {
 	case "MId":
 		return x
@@ -411,6 +505,91 @@ func fromNativeTree(x any) (*V, bool) {
 	return nil, false
 }
 
+// ---------- results that were handed out stay what they were ----------
+// A Go slice / map / string returned by Slice, Dict, the typed slices, Native*, String or FormatString belongs to the caller: later
+// calls on any container must not change it (a reused scratch buffer, a memoised snapshot, a string built on pooled bytes would).
+type heldResult struct {
+	what string
+	ref  any
+	sig  string
+}
+
+func shallowSig(x any) string {
+	var b strings.Builder
+	elem := func(e any) {
+		switch c := e.(type) {
+		case at.List:
+			fmt.Fprintf(&b, "L%p;", c)
+		case at.Object:
+			fmt.Fprintf(&b, "O%p;", c)
+		case float64:
+			fmt.Fprintf(&b, "f%x;", math.Float64bits(c))
+		default:
+			fmt.Fprintf(&b, "%T:%#v;", e, e)
+		}
+	}
+	switch t := x.(type) {
+	case string:
+		return strings.Clone(t)
+	case []any:
+		for _, e := range t {
+			elem(e)
+		}
+	case map[string]any:
+		keys := make([]string, 0, len(t))
+		for k := range t {
+			keys = append(keys, k)
+		}
+		sort.Strings(keys)
+		for _, k := range keys {
+			fmt.Fprintf(&b, "%q=", k)
+			elem(t[k])
+		}
+	case []at.Object:
+		for _, e := range t {
+			elem(e)
+		}
+	case []at.List:
+		for _, e := range t {
+			elem(e)
+		}
+	case []string:
+		for _, e := range t {
+			elem(e)
+		}
+	case []bool:
+		for _, e := range t {
+			elem(e)
+		}
+	case []int:
+		for _, e := range t {
+			elem(e)
+		}
+	case []float64:
+		for _, e := range t {
+			elem(e)
+		}
+	}
+	return b.String()
+}
+
+func (m *Machine) hold(what string, ref any) {
+	m.held = append(m.held, heldResult{what, ref, shallowSig(ref)})
+	if len(m.held) > 8 {
+		m.held = m.held[len(m.held)-8:]
+	}
+}
+
+func (m *Machine) verifyHeld(after string) {
+	for _, h := range m.held {
+		if shallowSig(h.ref) != h.sig {
+			m.fail("a value returned earlier by %s changed when %s ran later (the result does not own its storage)", h.what, after)
+			m.held = nil
+			return
+		}
+	}
+}
+
 // ---------- execution on the implementation ----------
 
 // execX runs one extended op. It returns (xout term, result container or nil). Panics propagate to the caller's try().
@@ -490,7 +669,13 @@ func (m *Machine) execX(o *Op) (xout string, result any, hasResult bool) {
 		var mu sync.Mutex
 		var ret at.List
 		if o.Name == "XLForEach" {
-			ret = l.ForEach(func(i int, x any) { log = append(log, iv{i, x}) })
+			ret = l.ForEach(func(i int, x any) {
+				touch(x)
+				if i == 0 {
+					l.ForEach(func(int, any) {}) // the receiver iterated again from inside its own iteration
+				}
+				log = append(log, iv{i, x})
+			})
 		} else {
 			ret = l.ForEachAsync(func(i int, x any) { mu.Lock(); log = append(log, iv{i, x}); mu.Unlock() })
 			sort.SliceStable(log, func(a, b int) bool { return log[a].i < log[b].i })
@@ -509,13 +694,13 @@ func (m *Machine) execX(o *Op) (xout string, result any, hasResult bool) {
 	case "XLForEachValue":
 		l := m.list(o.R)
 		var log []any
-		if l.ForEachValue(func(x any) { log = append(log, x) }) != l {
+		if l.ForEachValue(func(x any) { touch(x); log = append(log, x) }) != l {
 			m.fail("ForEachValue did not return its receiver")
 		}
 		return "(XO (OVs " + ovs(log) + "))", nil, false
 	case "XLReduce":
 		l := m.list(o.R)
-		res := l.Reduce([]any{}, func(acc any, x any) any { return append(acc.([]any), x) })
+		res := l.Reduce([]any{}, func(acc any, x any) any { touch(x); return append(acc.([]any), x) })
 		return "(XO (OVs " + ovs(res.([]any)) + "))", nil, false
 	case "XLForEachK":
 		l := m.list(o.R)
@@ -523,9 +708,9 @@ func (m *Machine) execX(o *Op) (xout string, result any, hasResult bool) {
 		var ret at.List
 		switch o.Kind {
 		case at.TypeObject:
-			ret = l.ForEachObject(func(x at.Object) { log = append(log, x) })
+			ret = l.ForEachObject(func(x at.Object) { touch(x); log = append(log, x) })
 		case at.TypeList:
-			ret = l.ForEachList(func(x at.List) { log = append(log, x) })
+			ret = l.ForEachList(func(x at.List) { touch(x); log = append(log, x) })
 		case at.TypeString:
 			ret = l.ForEachString(func(x string) { log = append(log, x) })
 		case at.TypeBool:
@@ -545,27 +730,39 @@ func (m *Machine) execX(o *Op) (xout string, result any, hasResult bool) {
 		var log []any
 		switch o.Kind {
 		case at.TypeObject:
-			for _, x := range l.ObjectSlice() {
+			sl := l.ObjectSlice()
+			m.hold("ObjectSlice", sl)
+			for _, x := range sl {
 				log = append(log, x)
 			}
 		case at.TypeList:
-			for _, x := range l.ListSlice() {
+			sl := l.ListSlice()
+			m.hold("ListSlice", sl)
+			for _, x := range sl {
 				log = append(log, x)
 			}
 		case at.TypeString:
-			for _, x := range l.StringSlice() {
+			sl := l.StringSlice()
+			m.hold("StringSlice", sl)
+			for _, x := range sl {
 				log = append(log, x)
 			}
 		case at.TypeBool:
-			for _, x := range l.BoolSlice() {
+			sl := l.BoolSlice()
+			m.hold("BoolSlice", sl)
+			for _, x := range sl {
 				log = append(log, x)
 			}
 		case at.TypeInt:
-			for _, x := range l.IntSlice() {
+			sl := l.IntSlice()
+			m.hold("IntSlice", sl)
+			for _, x := range sl {
 				log = append(log, x)
 			}
 		case at.TypeFloat:
-			for _, x := range l.FloatSlice() {
+			sl := l.FloatSlice()
+			m.hold("FloatSlice", sl)
+			for _, x := range sl {
 				log = append(log, x)
 			}
 		}
@@ -640,7 +837,7 @@ func (m *Machine) execX(o *Op) (xout string, result any, hasResult bool) {
 		var mu sync.Mutex
 		var ret at.Object
 		if o.Name == "XOForEach" {
-			ret = ob.ForEach(func(k string, x any) { log = append(log, kv{k, x}) })
+			ret = ob.ForEach(func(k string, x any) { touch(x); log = append(log, kv{k, x}) })
 		} else {
 			ret = ob.ForEachAsync(func(k string, x any) { mu.Lock(); log = append(log, kv{k, x}); mu.Unlock() })
 		}
@@ -725,6 +922,7 @@ func (m *Machine) execX(o *Op) (xout string, result any, hasResult bool) {
 				s = c.FormatString(int(o.I))
 			}
 		}
+		m.hold(o.Name[1:]+"String", s)
 		v, ok := refDecode(s)
 		if !ok {
 			m.fail("%s returned a text that encoding/json does not decode: %q", o.Name, s)
@@ -739,6 +937,7 @@ func (m *Machine) execX(o *Op) (xout string, result any, hasResult bool) {
 		case at.Object:
 			x = c.NativeDict()
 		}
+		m.hold("NativeSlice/NativeDict", x)
 		v, ok := fromNativeTree(x)
 		if !ok {
 			m.fail("NativeSlice/NativeDict returned something that is not plain Go data ([]any / map[string]any / scalars)")
@@ -831,6 +1030,24 @@ func (p *Prog) nkvs(depth int) []NKV {
 
 // homogeneous scalar leaves: the typed flavours ([]int, []string, map[string]float64 ...) reach NewListFrom / NewObjectFrom
 func (p *Prog) homogLeaves(n int) []*NSrc {
+	// live containers of one kind, with nil entries: the []List / []Object / map[string]List / map[string]Object flavours
+	if p.r.chance(0.3) {
+		regs := p.listRegs()
+		if p.r.chance(0.5) {
+			regs = p.objRegs()
+		}
+		if len(regs) > 0 {
+			var r []*NSrc
+			for i := 0; i < n; i++ {
+				o := Operand{IsReg: true, Reg: pickOf(p.r, regs)}
+				if p.r.chance(0.3) {
+					o = Operand{V: vnil()}
+				}
+				r = append(r, &NSrc{Kind: 0, Leaf: &o})
+			}
+			return r
+		}
+	}
 	pool := [][]*V{
 		{vint(0), vint(1), vint(-7), vint(math.MaxInt64), vint(math.MinInt64)},
 		{vstr(""), vstr("a"), vstr("xyz"), vstr("é")},
@@ -963,7 +1180,8 @@ func (p *Prog) xObjOp(r int, class string) {
 
 // are all floats reachable from x finite? (String/FormatString of NaN/Inf is outside every property's domain)
 func allFiniteAny(x any) bool {
-	return fromAny(x).allFinite()
+	v := fromAny(x)
+	return v.allFinite() && v.allStringsValid()
 }
 
 // a valid-domain mutation of a random live container (the boundary behaviour of the mutators belongs to C05/C06)
@@ -1124,6 +1342,8 @@ func xProgramBody(p *Prog, r *R, prof string) {
 		nops *= 3
 	}
 	switch prof {
+	case "C09x":
+		p.scalars = append(append([]*V{}, heapScalars...), vstr("caf\xe9"), vstr("\xff\xfe"), vstr("a\xc0\xafb"))
 	case "C02x", "C16x", "C13x":
 		p.scalars = finiteScalars
 	case "C18x":
@@ -1284,6 +1504,10 @@ func (p *Prog) twin() {
 		return
 	}
 	x := p.r.Intn(len(p.m.vars))
+	if p.r.chance(0.5) && len(p.m.vars) < 12 {
+		p.rebuild(p.m.vars[x], 0) // a deep twin: equal, and no container shared at any depth
+		return
+	}
 	switch c := p.m.vars[x].(type) {
 	case at.List:
 		var vs []Operand
@@ -1304,6 +1528,39 @@ func (p *Prog) twin() {
 		}
 		p.do(&Op{Name: "NewObject", Vals: vs})
 	}
+}
+
+// rebuild: an operand denoting a value EQUAL to x in which every container, at every depth, is a new one
+func (p *Prog) rebuild(x any, depth int) Operand {
+	switch c := x.(type) {
+	case at.List:
+		if depth > 6 {
+			return Operand{V: vnil()}
+		}
+		var vs []Operand
+		for i := 0; i < c.Count(); i++ {
+			vs = append(vs, p.rebuild(c.Get(i), depth+1))
+		}
+		p.do(&Op{Name: "NewList", Vals: vs})
+		return Operand{IsReg: true, Reg: len(p.m.vars) - 1}
+	case at.Object:
+		if depth > 6 {
+			return Operand{V: vnil()}
+		}
+		d := c.Dict()
+		keys := make([]string, 0, len(d))
+		for k := range d {
+			keys = append(keys, k)
+		}
+		sort.Strings(keys)
+		var vs []Operand
+		for _, k := range keys {
+			vs = append(vs, Operand{V: vstr(k)}, p.rebuild(d[k], depth+1))
+		}
+		p.do(&Op{Name: "NewObject", Vals: vs})
+		return Operand{IsReg: true, Reg: len(p.m.vars) - 1}
+	}
+	return Operand{V: fromAny(x)}
 }
 
 // an operand denoting value x: a literal for scalars, the register of the container otherwise (or nil if it is not a variable)
